@@ -418,3 +418,5 @@ MANIFEST = {
     'technique': 'origin/provenance classification over value terms + path-condition entailment + conformance of the validation routines',
     'design_ref': 'DESIGN.md 3/C11',
 }
+MANIFEST['note'] += (' Also decided here (necessary conditions shared between properties or added after the independent '
+                     'change rounds, DESIGN.md 8.7): configuration lists translated entry by entry (from C19), configuration objects and value classes never mutated in place.')
